@@ -32,7 +32,10 @@ def demo_cmd(demo_diff):
     for f in new:
         m = re.match(r"(passage-[\w/-]+|\.)?/?tests/(\w+)\.rs$", f)
         if m:
-            pkg = {"passage-protocol": "passage-protocol", "passage-packets": "passage-packets", "passage-adapters": "passage-adapters"}.get((m.group(1) or "").split("/")[0], None)
+            d = (m.group(1) or "").strip("/")
+            pkg = {"passage-protocol": "passage-protocol", "passage-packets": "passage-packets", "passage-adapters": "passage-adapters",
+                   "passage-adapters/http": "passage-adapters-http", "passage-adapters/grpc": "passage-adapters-grpc",
+                   "passage-adapters/agones": "passage-adapters-agones", "passage-adapters/dns": "passage-adapters-dns"}.get(d, None)
             cmds.append("cargo test --offline %s --test %s 2>&1 | tail -40" % ("-p " + pkg if pkg else "", m.group(2)))
     return cmds, new
 
